@@ -17,7 +17,7 @@ PROPS = {}
 # properties not claimed (yet or ever), with the one-line reason that goes into MANIFEST.not_applicable
 _WIP = "check not built yet in this round (planned, see DESIGN.md section 5)"
 NOT_APPLICABLE = {
-    "C01": _WIP, "C02": _WIP, "C04": _WIP, "C06": _WIP,
+    "C02": _WIP, "C04": _WIP, "C06": _WIP,
     "C11": _WIP, "C12": _WIP, "C15": _WIP,
     "C03": "accept/reject and AST construction live in a proc-macro-generated PEG parser over `str`; Verus cannot reason about str/macro output and Kani cannot carry a symbolic text past the mandatory header, so no contract within reach states 'accepts exactly this language'",
     "C16": "composes core::fmt/pad string formatting with the pest parser over all ASTs; both halves are str-level and outside what Verus accepts or Kani can bound meaningfully",
@@ -151,4 +151,39 @@ PROPS["C09"] = {
     "samples": [{"obligation": "C09.N.closure", "text": "cert(addr, IR) ==> cert(control_step(addr, IR, flags, co, zo, no, iff, byte))", "domain": "512 x 256 x 2^4 x 2^3 x 2 x 256, symbolic"}],
     "trusted": [],
     "assumptions": [],
+}
+
+C01_INJECT = ST_ALL + [("emulator-2a-lib/src/machine/raw/mod.rs", "c01_isa.rs", "verif_isa"),
+                       ("emulator-2a-lib/src/machine/raw/mod.rs", "c01_triples.rs", "verif_c01")]
+
+def _pregen_c01(stage, native_run):
+    import os
+    out = native_run(stage, "verif_replay_c01", "gen_c01_paths")
+    paths = {}
+    for l in out.splitlines():
+        p = l.split()
+        if len(p) >= 3 and p[0] == "P":
+            paths[p[1]] = [int(x) for x in p[2:]]
+    if not paths:
+        raise RuntimeError("no micro-paths recorded")
+    with open(os.path.join(stage.gen, "c01_paths.rs"), "w") as f:
+        f.write("// generated per run by the native path recorder (real clock edge); untrusted, every address is asserted\n")
+        f.write("#[allow(non_upper_case_globals)]\npub(crate) mod paths {\n")
+        for n, p in sorted(paths.items()):
+            f.write("    pub(crate) const %s: &[usize] = &[%s];\n" % (n, ", ".join("0x%03X" % a for a in p)))
+        f.write("}\n")
+    return {"micro_paths": {n: " ".join("%03X" % a for a in p) for n, p in sorted(paths.items())}}
+
+
+PROPS["C01"] = {
+    "inject": C01_INJECT,
+    "pregen": _pregen_c01,
+    "functions": ["RawMachine::trigger_clock_edge (all seven pipeline stages)", "AluOutput::from_input", "Bus::read / Bus::write", "Signals::*", "MicroprogramRam::CONTENT"],
+    "timeout": 900,
+    "technique": "Hoare triples per instruction form on the real clock-edge function with all data symbolic (register field symbolic, routine-selecting opcode bits fixed), boundary predicate as inductive invariant; loop invariants for MUL/DIV; Kani/CBMC",
+    "level_text": "Proof per instruction form: from every boundary state with that opcode (all registers incl. scratch, flags, PC, SP, RAM, I/O symbolic) the real micro-path re-establishes the boundary with exactly the ISA reference's view and nothing else changed; sequences follow by induction over boundaries.",
+    "level_note": "Trusted: Kani/CBMC, rustc, my ISA reference (isa_exec: flag rules beyond the statement transcribed from the microprogram listing). Supervision events on the path are excluded (C05). Two-byte forms are cut at the second-opcode fetch (source-phase and destination-phase triples compose).",
+    "samples": [{"obligation": "C01.SUB.view", "text": "{B & opcode=0x8s|d} path {B' & Rd'=Rd-Rs & C'=borrow & Z',N' & rest unchanged}", "domain": "all registers, flags, PC, SP, 240 RAM bytes symbolic; d symbolic, s per harness"}],
+    "trusted": [],
+    "assumptions": ["WLOG boundary word 0x006 (all fetch words proved identical)", "no pending key interrupt during the triple (interrupt entry is C04's triple)"],
 }
